@@ -104,6 +104,144 @@ def c05_reference(rng, tier):
     return out
 
 
+@oracle("C17", "aero_point_totals")
+def c17_aero_point_totals(rng, tier):
+    """the aircraft-level functionals of an assembled `AeroPoint` (TotalAeroPerformance): reference area, area-weighted coefficients,
+    `L = q S CL`, `D = q S CD`, and `CM` from the moments of the sectional forces about `cg`"""
+    surfaces = _aero_config(rng, tier)
+    flow = _flow(rng)
+    if any(s["symmetry"] for s in surfaces):
+        flow["beta"] = 0.0
+    user_sref = float(rng.uniform(5, 60)) if rng.uniform() < 0.3 else None
+    prob = pipelines.run_aero_point(surfaces, flow, user_sref=user_sref)
+    o = pipelines.aero_outputs(prob, surfaces)
+    out = []
+    case = dict(shapes=[list(s["mesh"].shape) for s in surfaces], symmetry=[bool(s["symmetry"]) for s in surfaces], user_sref=user_sref)
+    S = [o[s["name"]]["S_ref"] for s in surfaces]
+    Stot = user_sref if user_sref is not None else sum(S)
+    if abs(o["S_ref_total"] - Stot) > 1e-12 * Stot:
+        out.append(_fail("total reference area is not the sum of the surface areas (or the user's value)", o["S_ref_total"], Stot, **case))
+    for key in ("CL", "CD"):
+        req = sum(o[s["name"]][key] * Si for s, Si in zip(surfaces, S)) / Stot
+        if abs(o[key] - req) > 1e-12 * max(abs(req), 1e-6):
+            out.append(_fail("aircraft %s is not the area-weighted sum of the surface coefficients" % key, o[key], req, **case))
+    q = 0.5 * flow["rho"] * flow["v"] ** 2
+    for key, ck in (("L", "CL"), ("D", "CD")):
+        if abs(o[key] - q * Stot * o[ck]) > 1e-10 * max(abs(o[key]), 1.0):
+            out.append(_fail("aircraft %s != q S_ref %s" % (key, ck), o[key], q * Stot * o[ck], **case))
+    # CM: moment of the sectional forces at the quarter-chord midpoints of the bound vortices about cg, normalised by q S MAC(first surface)
+    M = np.zeros(3)
+    for s in surfaces:
+        n = s["name"]
+        b = np.array(prob.get_val("pt.%s.b_pts" % n)); F = o[n]["sec_forces"]
+        pts = 0.5 * (b[:, 1:] + b[:, :-1])
+        m = np.cross(pts - flow["cg"], F).reshape(-1, 3).sum(axis=0)
+        if s["symmetry"]:
+            m = np.array([0.0, 2 * m[1], 0.0])
+        M += m
+    s0 = surfaces[0]; n0 = s0["name"]
+    ch = np.array(prob.get_val("pt.%s.chords" % n0)); w = np.array(prob.get_val("pt.%s.widths" % n0))
+    pc = 0.5 * (ch[1:] + ch[:-1])
+    mac = (pc ** 2 * w).sum() / S[0] * (2 if s0["symmetry"] else 1)
+    req = M / (q * Stot * mac)
+    if np.max(np.abs(o["CM"] - req)) > 1e-9 * max(np.max(np.abs(req)), 1e-6):
+        out.append(_fail("CM is not the moment of the sectional forces about cg over q S_ref MAC", o["CM"], req, **case))
+    return out
+
+
+@oracle("C18", "aero_point_drag_breakdown")
+def c18_aero_point_drag(rng, tier):
+    """the per-surface drag build-up inside an assembled `AeroPoint` (VLMFunctionals): `CD = CDi + CDv + CDw + CD0`, `CL = CL1 + CL0`,
+    viscous and wave drag vanish when switched off and are positive when on (wave drag above onset only)"""
+    surfaces = _aero_config(rng, tier)
+    for s in surfaces:
+        s["with_wave"] = gen.flag(rng, bool(rng.integers(2)))
+        s["t_over_c_cp"] = np.array([float(rng.uniform(0.08, 0.16))])
+    flow = _flow(rng, Mach_number=float(rng.uniform(0.3, 0.9)))
+    if any(s["symmetry"] for s in surfaces):
+        flow["beta"] = 0.0
+    prob = pipelines.run_aero_point(surfaces, flow)
+    o = pipelines.aero_outputs(prob, surfaces)
+    out = []
+    for s in surfaces:
+        n = s["name"]; r = o[n]
+        case = dict(surface=n, shape=list(s["mesh"].shape), with_viscous=bool(s["with_viscous"]), with_wave=bool(s["with_wave"]), k_lam=s["k_lam"])
+        req = r["CDi"] + r["CDv"] + r["CDw"] + s["CD0"]
+        if abs(r["CD"] - req) > 1e-12 * max(abs(req), 1e-9):
+            out.append(_fail("surface CD != CDi + CDv + CDw + CD0", r["CD"], req, **case))
+        cl1 = float(prob.get_val("pt.%s_perf.CL1" % n)[0])
+        if abs(r["CL"] - (cl1 + s["CL0"])) > 1e-12 * max(abs(r["CL"]), 1e-9):
+            out.append(_fail("surface CL != CL1 + CL0", r["CL"], cl1 + s["CL0"], **case))
+        if not s["with_viscous"] and r["CDv"] != 0.0:
+            out.append(_fail("viscous drag is not zero although it is switched off", r["CDv"], 0.0, **case))
+        if s["with_viscous"] and not (r["CDv"] > 0.0 and np.isfinite(r["CDv"])):
+            out.append(_fail("viscous drag is not a positive finite number although it is switched on", r["CDv"], "> 0", **case))
+        if not s["with_wave"] and r["CDw"] != 0.0:
+            out.append(_fail("wave drag is not zero although it is switched off", r["CDw"], 0.0, **case))
+        if r["CDw"] < 0.0 or not np.isfinite(r["CDw"]):
+            out.append(_fail("wave drag is negative or not finite", r["CDw"], ">= 0", **case))
+    return out
+
+
+@oracle("C19", "mux_demux_adjoint_products")
+def c19_mux_demux_products(rng, tier):
+    """the matrix-free products of the MPhys mesh demultiplexer and force multiplexer: forward and reverse products are adjoint to
+    each other (dot-product test) and the forward product is the permutation itself (the maps are linear)"""
+    try:
+        from openaerostruct.mphys.demux_surface_mesh import DemuxSurfaceMesh
+        from openaerostruct.mphys.mux_surface_forces import MuxSurfaceForces
+    except Exception:
+        raise Discard()
+    import openmdao.api as om
+    surfaces = _aero_config(rng, tier, ns=int(rng.choice([1, 2, 3])))
+    out = []
+    for cls, inname in ((DemuxSurfaceMesh, None), (MuxSurfaceForces, None)):
+        for mode in ("fwd", "rev"):
+            prob = om.Problem(reports=False)
+            prob.model.add_subsystem("c", cls(surfaces=surfaces), promotes=["*"])
+            with quiet():
+                prob.setup(mode=mode); prob.final_setup()
+            comp = prob.model.c
+            ins = {k.split(".")[-1]: v["shape"] for k, v in comp._var_abs2meta["input"].items()}
+            outs = {k.split(".")[-1]: v["shape"] for k, v in comp._var_abs2meta["output"].items()}
+            x = {k: rng.normal(size=sh) for k, sh in ins.items()}
+            for k, v in x.items():
+                prob.set_val(k, v)
+            with quiet():
+                prob.run_model()
+                y0 = {k: np.array(prob.get_val(k)) for k in outs}
+                J = prob.compute_totals(of=list(outs), wrt=list(ins), return_format="dict")
+            # linear map: J x == y, entries 0/1 with exactly one 1 per row (a permutation/selection)
+            for ok_ in outs:
+                acc = np.zeros(int(np.prod(outs[ok_])))
+                for ik in ins:
+                    Jm = np.atleast_2d(np.array(J[ok_][ik])).reshape(acc.size, -1)
+                    acc += Jm @ x[ik].ravel()
+                    if not np.all((Jm == 0) | (Jm == 1)):
+                        out.append(_fail("%s: derivative entries other than 0 and 1 (%s mode)" % (cls.__name__, mode), float(np.max(np.abs(Jm))), "0/1"))
+                if np.max(np.abs(acc - y0[ok_].ravel())) > 1e-12 * max(np.max(np.abs(acc)), 1.0):
+                    out.append(_fail("%s: matrix-free %s product is not the map itself" % (cls.__name__, mode), float(np.max(np.abs(acc - y0[ok_].ravel()))), 0.0,
+                                     shapes=[list(s["mesh"].shape) for s in surfaces]))
+            prob.cleanup()
+        # fwd and rev Jacobians must be the same matrix (adjoint consistency)
+    def jac(cls, mode, x):
+        prob = om.Problem(reports=False)
+        prob.model.add_subsystem("c", cls(surfaces=surfaces), promotes=["*"])
+        with quiet():
+            prob.setup(mode=mode); prob.final_setup()
+            comp = prob.model.c
+            ins = [k.split(".")[-1] for k in comp._var_abs2meta["input"]]; outs = [k.split(".")[-1] for k in comp._var_abs2meta["output"]]
+            prob.run_model()
+            return prob.compute_totals(of=outs, wrt=ins, return_format="array")
+    for cls in (DemuxSurfaceMesh, MuxSurfaceForces):
+        Jf = jac(cls, "fwd", None); Jr = jac(cls, "rev", None)
+        if Jf.shape != Jr.shape or np.max(np.abs(Jf - Jr)) > 0:
+            out.append(_fail("%s: forward and reverse matrix-free products are not adjoint to each other" % cls.__name__,
+                             float(np.max(np.abs(Jf - Jr))) if Jf.shape == Jr.shape else list(Jr.shape), 0.0,
+                             shapes=[list(s["mesh"].shape) for s in surfaces]))
+    return out
+
+
 # ---------------------------------------------------------------------------------------
 # C04  half-span symmetric model == full-span model
 # ---------------------------------------------------------------------------------------
